@@ -2,6 +2,7 @@
    Statements only; each closed by [exact] and followed by Print Assumptions. *)
 From Coq Require Import List NArith Bool.
 From Storage Require Import Base.Bytes Lang.Unescape Lang.UnescapeProofs.
+From Storage Require Import Lang.Tokens Lang.BoolSurface Lang.WordOps Lang.StrCompare Lang.StrCompareProofs.
 Import ListNotations.
 Open Scope N_scope.
 
@@ -41,3 +42,68 @@ Theorem token_value_faithful : forall body : str,
   body_ok body = true -> reescape_matches body (unescape body).
 Proof. exact token_value_faithful_lemma. Qed.
 Print Assumptions token_value_faithful.
+
+(* ---- end to end: the literal as operand of a comparison with a STORED value (Lang/StrCompare.v) ---- *)
+
+(* a stored string is seen by the filter as that string - the empty one included, it is not null - and for
+   every comparison operator (= != < <= > >= contains, not contains) the comparison of the stored value x
+   with the literal of s gives what the comparison of x with s gives.  s is arbitrary: it may spell
+   keywords, operators or whole filters *)
+Theorem stored_comparison_exact : forall (op : sop) (s x : str),
+  expressible_full s = true ->
+  is_string_token (literal_full s) /\
+  row_eval_string (Some x) = Some x /\
+  cmp_query op (literal_full s) (Some x) = spec_cmp op x s.
+Proof. exact stored_comparison_exact_lemma. Qed.
+Print Assumptions stored_comparison_exact.
+
+Theorem stored_comparison_exact_min : forall (op : sop) (s x : str),
+  expressible_min s = true ->
+  is_string_token (literal_min s) /\ cmp_query op (literal_min s) (Some x) = spec_cmp op x s.
+Proof. exact stored_comparison_exact_min_lemma. Qed.
+Print Assumptions stored_comparison_exact_min.
+
+(* = matches exactly the stored values equal to s, != exactly the others *)
+Theorem stored_eq_matches_exactly : forall s x : str,
+  (cmp_query SEq (literal_full s) (Some x) = true <-> x = s) /\
+  (cmp_query SNeq (literal_full s) (Some x) = true <-> x <> s).
+Proof. exact stored_eq_matches_exactly_lemma. Qed.
+Print Assumptions stored_eq_matches_exactly.
+
+(* a row without a value equals no literal - the empty literal does not denote "no value" *)
+Theorem absent_field_matches_no_literal : forall (op : sop) (lit : str),
+  cmp_query op lit None = match op with SNeq | SNotContains => true | _ => false end.
+Proof. exact cmp_absent_lemma. Qed.
+Print Assumptions absent_field_matches_no_literal.
+
+(* in / not in: for every spelling of the operator token, x is selected by  in [lit v1, .., lit vn]  iff x is
+   one of v1..vn (not in: iff it is none of them) - whatever the v's spell, the word `not` included *)
+Theorem in_list_exact : forall (neg : bool) (tok : str) (vals : list str) (x : str),
+  spells_wordop wo_in neg tok ->
+  in_query tok (map literal_full vals) (Some x) = xorb neg (existsb (str_eqb x) vals) /\
+  in_query tok (map literal_min vals) (Some x) = xorb neg (existsb (str_eqb x) vals).
+Proof. exact in_list_exact_lemma. Qed.
+Print Assumptions in_list_exact.
+
+(* contains / not contains / icontains likewise depend on the operator token and the value of the literal only *)
+Theorem contains_exact : forall (neg : bool) (tok s x : str),
+  spells_wordop wo_contains neg tok ->
+  contains_query tok (literal_full s) (Some x) = xorb neg (contains_sub s x) /\
+  contains_query tok (literal_min s) (Some x) = xorb neg (contains_sub s x).
+Proof. exact contains_exact_lemma. Qed.
+Print Assumptions contains_exact.
+
+Theorem icontains_exact : forall (neg : bool) (tok s x : str),
+  spells_wordop wo_icontains neg tok ->
+  icontains_query tok (literal_full s) (Some x) = xorb neg (contains_sub (map to_upper s) (map to_upper x)).
+Proof. exact icontains_query_full_lemma. Qed.
+Print Assumptions icontains_exact.
+
+(* anyOf / allOf evaluate the comparison on every stored element; the seek short-cut taken for
+   anyOf(set) = literal  on the ascending element cursor gives the same answer *)
+Theorem set_comparison_exact : forall (op : sop) (s : str) (elems : list str),
+  any_of (cmp_query op (literal_full s)) elems = existsb (fun e => spec_cmp op e s) elems /\
+  all_of (cmp_query op (literal_full s)) elems = forallb (fun e => spec_cmp op e s) elems /\
+  (ascending elems = true -> any_of_eq_seek (literal_full s) elems = existsb (fun e => str_eqb e s) elems).
+Proof. exact set_comparison_exact_lemma. Qed.
+Print Assumptions set_comparison_exact.
